@@ -298,6 +298,17 @@ def count_obligations(prop_file):
     return n, files
 
 
+def count_obligations_file(f):
+    """number of statements with a proof in one file (used for files a property adds through EXTRA_PROP_FILES)"""
+    try:
+        src = open(os.path.join(COQ, f)).read()
+    except FileNotFoundError:
+        return 0
+    src = re.sub(r'\(\*.*?\*\)', '', src, flags=re.S)
+    return len(re.findall(r'^\s*(?:Local\s+|Global\s+|#\[[^\]]*\]\s*)?(?:Theorem|Lemma|Corollary|Fact|Proposition|Example|Remark)\s+\w+',
+                          src, flags=re.M))
+
+
 def coq_hygiene():
     bad = []
     for f in coq_files():
